@@ -1,88 +1,5 @@
 use vstd::prelude::*;
 verus! {
-//@include frag/std.tpl
-//@include frag/core_modules.tpl
-pub mod decode {
-//@include frag/decode.tpl
-}
-pub mod spec {
-//@include frag/stream_spec.tpl
-}
-pub mod shims {
-    pub mod scursor {
-//@include frag/scursor_shim.tpl
-    }
-    pub mod crc {
-//@include frag/crc_shim.tpl
-    }
-    pub mod tokio {
-//@include frag/tokio_shim.tpl
-    }
-    pub mod sync {
-//@include frag/sync_shim.tpl
-    }
-}
-pub mod common {
-    pub mod bits {
-//@include frag/common_bits.tpl
-    }
-    pub mod function {
-//@include frag/common_function.tpl
-    }
-    pub mod traits {
-//@include frag/common_traits.tpl
-    }
-    pub mod parse {
-//@include frag/common_parse.tpl
-    }
-    pub mod serialize {
-//@include frag/common_serialize_basic.tpl
-//@include frag/common_serialize_writers.tpl
-    }
-    pub mod phys {
-//@include frag/phys_shim.tpl
-    }
-    pub mod buffer {
-//@include frag/common_buffer.tpl
-    }
-    pub mod frame {
-//@include frag/common_frame_types.tpl
-//@include frag/common_frame_reader.tpl
-//@include frag/common_frame_writer.tpl
-    }
-}
-pub mod tcp {
-    pub mod frame {
-//@include frag/tcp_frame.tpl
-//@include frag/tcp_frame_writer.tpl
-    }
-}
-pub mod serial {
-    pub mod frame {
-//@include frag/serial_frame.tpl
-//@include frag/serial_frame_writer.tpl
-    }
-}
-pub mod server {
-    pub mod response {
-//@include frag/server_response.tpl
-    }
-    pub mod types {
-//@include frag/server_types.tpl
-    }
-    pub mod handler {
-//@include frag/server_handler.tpl
-    }
-    pub mod reply_spec {
-//@include frag/server_reply_spec.tpl
-    }
-    pub mod task {
-//@include frag/server_task.tpl
-    }
-    pub mod request {
-//@include frag/server_request_parse.tpl
-//@include frag/server_request_reply.tpl
-    }
-}
+//@include frag/proto_modules.tpl
 } // verus!
 fn main() {}
